@@ -90,6 +90,8 @@ unsafe fn history<const L: usize>(two_lifetimes: bool) {
                 }
                 kani::assume(!inside_some_region(t) && sim::find_jit(t).is_none());
                 cur[k] = Cur { set: true, raw, t, v };
+                kani::cover!(i > 0 && cur[0].set && !cur[1].set, "COVER: same function faked twice");
+                kani::cover!(cur[0].set && cur[1].set, "COVER: two functions faked");
                 assert!(lock_held(), "VERIF[C04]: a live injector does not hold the process-wide lock");
                 assert!(sim::all_clean(), "VERIF[C17]: bytes written during installation are not covered by a later flush");
                 assert!(sim::live_jits() > jits_before && sim::live_jits() <= jits_before + (i as u32) + 1, "VERIF[C12]: the live trampolines are not those of the installations made so far");
@@ -104,8 +106,6 @@ unsafe fn history<const L: usize>(two_lifetimes: bool) {
                     check_entry(0, &cur[0], &orig[0]);
                     check_entry(1, &cur[1], &orig[1]);
                 }
-                kani::cover!(i > 0 && cur[0].set && !cur[1].set, "COVER: same function faked twice");
-                kani::cover!(cur[0].set && cur[1].set, "COVER: two functions faked");
                 i += 1;
             }
         }
